@@ -76,7 +76,7 @@ def run_chunk(args: tuple) -> dict:
     agg = new_agg()
     t0 = time.time()
     done: list[int] = []
-    _history.append([verif_seed, sub, tier, done])
+    _history.append(['gen', verif_seed, sub, tier, done])
     for i in indices:
         if time.time() > deadline:
             agg['cut_short'] += 1
@@ -192,7 +192,7 @@ def digest_chunk(args: tuple) -> list:
         seed = run_seed_of(verif_seed, sub, i)
         spec = program.generate(seed, _profile_for(sub, tier))
         done = [i]
-        _history.append([verif_seed, sub, tier, done])
+        _history.append(['gen', verif_seed, sub, tier, done])
         dump = os.environ.get('VERIF_DUMP_EVENTS')
         res = runner.run_spec(spec, keep_events=bool(dump))
         if dump:
@@ -247,21 +247,88 @@ def run_one_spec(spec: dict) -> dict:
     return strip(runner.run_spec(spec))
 
 
+def _history_specs(history: list, stop_seed):
+    """The specs a recorded worker history stands for, in order, up to (excluding) `stop_seed`."""
+    from . import program
+
+    for entry in history:
+        if entry[0] == 'gen':
+            _, verif_seed, sub, tier, indices = entry
+            prof = _profile_for(sub, tier)
+            for i in indices:
+                s = program.generate(run_seed_of(verif_seed, sub, i), prof)
+                if s['seed'] == stop_seed and s.get('generator') != 'hypothesis':
+                    return
+                yield s
+        else:  # ['specs', [spec, ...]] -- runs that cannot be regenerated from an index (Hypothesis)
+            for s in entry[1]:
+                yield s
+
+
+def flatten_history(history: list, stop_seed) -> list:
+    """History as a flat list of single-run entries (for minimisation)."""
+    flat = []
+    for entry in history:
+        if entry[0] == 'gen':
+            _, verif_seed, sub, tier, indices = entry
+            prof = _profile_for(sub, tier)
+            from . import program
+
+            for i in indices:
+                if program.generate(run_seed_of(verif_seed, sub, i), prof)['seed'] == stop_seed:
+                    return flat
+                flat.append(['gen', verif_seed, sub, tier, [i]])
+        else:
+            for s in entry[1]:
+                flat.append(['specs', [s]])
+    return flat
+
+
 def run_history_then_spec(args: tuple) -> dict:
-    """Re-executes a worker's chunk history in order, then the spec (history replay)."""
+    """Re-executes a recorded worker history in order, then the spec (history replay)."""
     history, spec = args
     if not _worker_ready:
         _worker_init()
-    from . import program, runner
+    from . import runner
 
-    for verif_seed, sub, tier, indices in history:
-        prof = _profile_for(sub, tier)
-        for i in indices:
-            s = program.generate(run_seed_of(verif_seed, sub, i), prof)
-            if s['seed'] == spec['seed']:
-                break
-            runner.run_spec(s)
+    for s in _history_specs(history, spec['seed']):
+        runner.run_spec(s)
     return strip(runner.run_spec(spec))
+
+
+def run_fresh_histories(cases: list[tuple], parallel: int = 16, timeout_s: float = 3600.0) -> list[dict]:
+    """Each (history, spec) in a brand-new process; results in order."""
+    if not cases:
+        return []
+    ctx = multiprocessing.get_context('spawn')
+    with concurrent.futures.ProcessPoolExecutor(max_workers=min(parallel, len(cases)), mp_context=ctx, max_tasks_per_child=1) as pool:
+        futs = [pool.submit(run_history_then_spec, c) for c in cases]
+        return [f.result(timeout=timeout_s) for f in futs]
+
+
+def minimise_history(history: list, spec: dict, clause: str, parallel: int = 16, budget: int = 96) -> tuple[list, dict | None, int]:
+    """ddmin (complement removal) over the flat list of earlier runs a violation depends on."""
+    flat = flatten_history(history, spec['seed'])
+    best_res = None
+    used = 0
+    n = 2
+    while flat and used < budget:
+        size = len(flat)
+        n = min(n, size)
+        bounds = [(size * k // n, size * (k + 1) // n) for k in range(n)]
+        cands = [flat[:lo] + flat[hi:] for lo, hi in bounds if hi > lo]
+        cands = cands[: max(1, budget - used)]
+        results = run_fresh_histories([(c, spec) for c in cands], parallel)
+        used += len(cands)
+        hit = next((k for k, r in enumerate(results) if r['status'] == 'violation' and r['violation']['clause'] == clause), None)
+        if hit is not None:
+            flat, best_res = cands[hit], results[hit]
+            n = max(n - 1, 2)
+            continue
+        if n >= size:
+            break
+        n = min(size, n * 2)
+    return flat, best_res, used
 
 
 def run_fresh(specs: list[dict], parallel: int = 16, timeout_s: float = 900.0) -> list[dict]:
@@ -299,6 +366,4 @@ def kill_pool(pool: concurrent.futures.ProcessPoolExecutor) -> None:
 
 
 def run_fresh_history(history: list, spec: dict, timeout_s: float = 3600.0) -> dict:
-    ctx = multiprocessing.get_context('spawn')
-    with concurrent.futures.ProcessPoolExecutor(max_workers=1, mp_context=ctx, max_tasks_per_child=1) as pool:
-        return pool.submit(run_history_then_spec, ([tuple(h) for h in history], spec)).result(timeout=timeout_s)
+    return run_fresh_histories([(history, spec)], 1, timeout_s)[0]
